@@ -27,6 +27,7 @@ class GateSock:
         self._eof = False
         self._held = False
         self._broken_writes = False
+        self._read_exc = None
         self.sent = bytearray()  # everything this side wrote
 
     @staticmethod
@@ -61,6 +62,8 @@ class GateSock:
             while True:
                 if self._closed:
                     return b""
+                if self._read_exc is not None:
+                    raise self._read_exc
                 if not self._held and self._buf:
                     out = bytes(self._buf[:n])
                     del self._buf[:n]
@@ -108,6 +111,12 @@ class GateSock:
     def eof(self):
         with self._cv:
             self._eof = True
+            self._cv.notify_all()
+
+    def fail_reads(self, exc):
+        """every later recv() raises ``exc`` (a socket-like object reporting a lost link its own way)"""
+        with self._cv:
+            self._read_exc = exc
             self._cv.notify_all()
 
     def inject(self, data):
